@@ -19,7 +19,7 @@ ID = 'C16'
 RULE = ('(a) ordered sets of <=2 trajectories (len 1..4, 3 states; Q: second trajectory every 5th sequence, T: all) x lag {1,2,3} '
         'x builder {normalize,transpose,mle(every 5th set, trimmed only)} x trim x sliding x max_n_states {None,5}: estimator vs function pipeline; (b) save/load on every 7th '
         'configuration; (c) all irreducible row-stochastic matrices n=3 with rows on the denominator-4 simplex lattice '
-        '(T: + n=4 denominator 2) dense+csr: eigenspectrum laws, implied_timescales on assignment sets, synthetic_ensemble '
+        '(T: + n=4 denominator 2) dense+csr: eigenspectrum laws, implied_timescales on assignment sets (lag times also as tuple / uint8..uint64 / int16..int64 arrays; assignments also stored as int8/uint8/int16 with ids up to the maximum of the type), synthetic_ensemble '
         'for n<=5 and all lattice start vectors; synthetic_ensemble over 2..4000 (T: 20000) steps of slowly mixing 2/3/4-state chains with crossing probabilities 1e-2..1e-8 (history = p0 T^k at every step); the sparse >=1000-state (ARPACK) branch of eigenspectrum on a family of '
         'nearly periodic (stay 0.03) and lazy (0.5) reversible walks on bipartite circulant graphs with 1000 and 1100 states x n_eigs {2,4,6}; state=(assignments|matrix, configuration); non-trivial = configuration '
         'where sliding and strided counts differ / chain with complex or negative eigenvalues')
@@ -30,7 +30,7 @@ ASSUMPTIONS = ['eigenvalues are compared at 1e-6, widened to 1e-13**(1/m) for a 
                'is only asserted when populations are finite',
                'one-state models: eq_probs_ comes back 0-d from loadtxt; compared after atleast_1d',
                'max_n_states is not part of MSM.config and is not asserted to survive save/load']
-GUARDS = {'slow_chain_long_run': 50, 'arpack_branch': 10, 'sliding_differs': 500, 'trim_removed_states': 500, 'roundtrip': 200, 'complex_eigs': 100, 'negative_eigs': 100,
+GUARDS = {'lag_forms': 4, 'narrow_assignments': 2, 'slow_chain_long_run': 50, 'arpack_branch': 10, 'sliding_differs': 500, 'trim_removed_states': 500, 'roundtrip': 200, 'complex_eigs': 100, 'negative_eigs': 100,
           'pipeline_raises_both': 0, 'imp_times': 100}
 NSH = {'quick': 60, 'thorough': 240}
 
@@ -371,10 +371,17 @@ def check_imp(case, ctx):
     from enspara.msm.transition_matrices import assigns_to_counts
     from enspara import ra
     trajs, lags, bname = case['trajs'], case['lags'], case['builder']
-    a = ra.RaggedArray([list(t) for t in trajs])
+    a = ra.RaggedArray([np.array(t, dtype=case.get('assign_dtype', 'int64')) for t in trajs])
     builder = getattr(builders, bname)
+    lags_arg = lags
+    if case.get('lags_form'):
+        # the lag times as the caller may hold them: tuple, or an integer ndarray of any width / signedness
+        lags_arg = tuple(lags) if case['lags_form'] == 'tuple' else np.array(lags, dtype=case['lags_form'])
+        ctx.guard('lag_forms')
+    if case.get('assign_dtype'):
+        ctx.guard('narrow_assignments')
     ctx.ev()
-    ctx.state(('imp', tuple(map(tuple, trajs)), tuple(lags), bname))
+    ctx.state(('imp', tuple(map(tuple, trajs)), tuple(lags), bname, case.get('lags_form'), case.get('assign_dtype')))
     n_states = max(max(t) for t in trajs) + 1
     if n_states < 2:
         return
@@ -393,7 +400,7 @@ def check_imp(case, ctx):
             ctx.guard('imp_trim_fewer_states')
             return
     try:
-        it = implied_timescales(a, lags, builder, n_times=n_states - 1, sliding_window=case['sliding'], trim=case.get('trim', False))
+        it = implied_timescales(a, lags_arg, builder, n_times=min(n_states - 1, case.get('n_times_cap', 10 ** 9)), sliding_window=case['sliding'], trim=case.get('trim', False))
     except Exception as e:
         # the pipeline itself may legitimately fail (e.g. no counts); must then fail the same way by hand
         try:
@@ -406,7 +413,7 @@ def check_imp(case, ctx):
         return
     ctx.guard('imp_times')
     it = np.asarray(it)
-    if it.shape != (len(lags), n_states - 1):
+    if it.shape != (len(lags), min(n_states - 1, case.get('n_times_cap', 10 ** 9))):
         ctx.violation('imp_times:shape', case, 'shape %s' % (it.shape,))
         return
     for row, lag in zip(it, lags):
@@ -478,6 +485,14 @@ def run_shard(sh, ctx):
             v = j // len(longs)
             check_imp({'kind': 'imp', 'trajs': trajs, 'lags': [1, 2, 3], 'builder': ('normalize', 'transpose')[v % 2],
                        'sliding': bool((v // 2) % 2), 'trim': bool((v // 4) % 2)}, ctx)
+            form = ('tuple', 'uint8', 'uint64', 'int32', 'int16', 'uint16', 'int64', 'uint32')[v % 8]
+            check_imp({'kind': 'imp', 'trajs': trajs, 'lags': [1, 2, 3], 'builder': 'normalize', 'sliding': True, 'lags_form': form}, ctx)
+            # state ids up to the largest value the storage type of the assignments can hold
+            for dt, top in (('int8', 127), ('uint8', 255), ('int16', 300)):
+                tr2 = [tuple(top if x == 2 else x for x in t) for t in trajs]
+                if (v + top) % 3 == 0:
+                    check_imp({'kind': 'imp', 'trajs': tr2, 'lags': [1, 2], 'builder': 'normalize', 'sliding': True, 'assign_dtype': dt,
+                               'n_times_cap': 2}, ctx)
     elif kind == 'arpack':
         # reversible walks only: for skewed (highly non-normal) walks of this size the eigenvalues themselves are
         # ill-conditioned (dense LAPACK on T and on T.T disagree in the 3rd digit), so no oracle exists
